@@ -50,6 +50,7 @@ func enumScenariosFor(prop string, depth int) []Scenario {
 		stalledCallee bool // the callee stopped reading and its queue (one slot) holds the INVOCATION
 		forwarded     bool // progressive call invocation to a callee that handles the timeout itself (forward_timeout)
 		restart       bool // progressive call invocation whose later chunks restart a short router-side timeout
+		sharedFwd     bool // shared registration (policy last): the first callee handles timeouts itself, the one called does not
 	}
 	variants := []variant{{calleeCancels: true}, {}}
 	if prop == "C06" || prop == "C13" || prop == "C02" {
@@ -63,6 +64,9 @@ func enumScenariosFor(prop string, depth int) []Scenario {
 	}
 	if prop == "C13" || prop == "C02" {
 		variants = append(variants, variant{calleeCancels: true, progressive: true, restart: true})
+	}
+	if prop == "C13" || prop == "C03" {
+		variants = append(variants, variant{calleeCancels: true, sharedFwd: true})
 	}
 	for _, v := range variants {
 		calleeFeats := []string{"progressive_call_results"}
@@ -85,6 +89,13 @@ func enumScenariosFor(prop string, depth int) []Scenario {
 			callOpts = map[string]any{"receive_progress": true, "timeout": 100, "progress": true}
 			regOpts = map[string]any{"forward_timeout": true}
 		}
+		third := map[string][]string{"callee": {"call_canceling"}, "caller": {}}
+		if v.sharedFwd {
+			// whether the timeout is forwarded depends on the callee that gets the call, not on the one that registered first
+			calleeFeats = append(calleeFeats, "call_timeout", "shared_registration")
+			regOpts = map[string]any{"forward_timeout": true, "invoke": "last"}
+			third = map[string][]string{"callee": {"call_canceling", "shared_registration"}, "caller": {}}
+		}
 		callee := mkJoin(2, map[string][]string{"callee": calleeFeats})
 		if v.stalledCallee {
 			callee["cap"] = 1
@@ -92,8 +103,11 @@ func enumScenariosFor(prop string, depth int) []Scenario {
 		setup := []map[string]any{
 			mkJoin(1, map[string][]string{"caller": callerFeats, "subscriber": {}}),
 			callee,
-			mkJoin(3, map[string][]string{"callee": {"call_canceling"}, "caller": {}}),
+			mkJoin(3, third),
 			msg(2, 64, 1, regOpts, "p"),
+		}
+		if v.sharedFwd {
+			setup = append(setup, msg(3, 64, 1, map[string]any{"invoke": "last"}, "p"))
 		}
 		if v.stalledCallee {
 			setup = append(setup, map[string]any{"op": "stall", "s": 2})
@@ -134,6 +148,10 @@ func enumScenariosFor(prop string, depth int) []Scenario {
 				msg(1, 48, 1, map[string]any{"progress": true, "timeout": 1000}, "p", []any{6}, map[string]any{}),
 				msg(1, 48, 1, map[string]any{"timeout": 1000}, "p", []any{7}, map[string]any{}),
 				map[string]any{"op": "tick", "ms": 101})
+		}
+		if v.sharedFwd {
+			alphabet = append(alphabet, map[string]any{"op": "tick", "ms": 101},
+				msg(3, 70, 1, map[string]any{}, []any{"by3"}, map[string]any{}))
 		}
 		if v.forwarded {
 			// later chunks carrying the timeout again, and enough time for a router-side timer to fire
